@@ -329,6 +329,44 @@ def g_lastsend(rng, i, **kw):
     scripts[1] += [rc, rc, "drop"]
     return scen.Scn("lastsend%d" % i, fl, "plain", cap, wk, sf, sy, scripts, sched, limit=1500, tags=("lastsend", "disc"))
 
+def g_lastsibling(rng, i, **kw):
+    """two handles on one stream; A is frozen a few steps into a receive; its sibling B receives, then goes away (A becomes
+    the only consumer in the middle of its attempt); producers move on (lap A's slot, or publish the last value and leave);
+    A resumes.  A must neither report the end early nor touch an overwritten slot."""
+    fl = kw.get("fl") or rng.choice("BBM")
+    cap = rng.choice([1, 2, 2, 4])
+    n = cap_n(cap)
+    wk = rng.choice(["busy", "yield"])
+    sf, sy = (0, 0) if wk == "busy" else _spins(rng)
+    scripts = {0: [], 1: ["clone:2"], 2: []}
+    sched = ["1*"]
+    val = 1
+    pre = rng.choice([1, 1, 2])
+    for _ in range(min(pre, n)):
+        scripts[0].append("send:%d" % val); val += 1; sched.append("0*")
+    scripts[1].append("recv")
+    sched += ["1"] * rng.choice([2, 3, 4, 5, 6])
+    took = rng.choice([1, 1, 2])
+    for _ in range(took):
+        scripts[2].append("recv"); sched.append("2*")
+    leave = rng.choice(["drop", "unsub"])
+    scripts[2].append(leave)
+    order = rng.random() < 0.5
+    if order:
+        sched.append("2*")
+    if rng.random() < 0.7:
+        sched += ["1"] * rng.choice([1, 2])
+    more = rng.choice([1, 2, n, n + 1])
+    for _ in range(more):
+        scripts[0].append("send:%d" % val); val += 1; sched.append("0*")
+    if rng.random() < 0.6:
+        scripts[0].append("drop"); sched.append("0*")
+    if not order:
+        sched.append("2*")
+    sched.append("1*")
+    scripts[1] += ["recv", "recv", "recv", "drop"]
+    return scen.Scn("lastsibling%d" % i, fl, "plain", cap, wk, sf, sy, scripts, sched, limit=1500, tags=("lastsibling", "disc"))
+
 def g_lagdrop(rng, i, **kw):
     """futures queue, ring full only because one stream lags; the sink task parks; the lagging stream is dropped or
     unsubscribed while another stream stays: the parked sender has to be notified"""
@@ -674,7 +712,7 @@ def g_solo(rng, i, **kw):
 
 GENS = {"seq": g_seq, "rand": g_rand, "pc": g_pc, "view": g_view, "teardown": g_teardown, "disc": g_disc,
         "norecv": g_norecv, "block": g_block, "fut": g_fut, "churn": g_churn, "quiesce": g_quiesce,
-        "addstream": g_addstream, "unsub": g_unsub, "handles": g_handles, "futseq": g_futseq, "solo": g_solo, "reclaim": g_reclaim, "lapped": g_lapped, "pinned": g_pinned, "norecv_churn": g_norecv_churn, "lastsend": g_lastsend, "lagdrop": g_lagdrop, "viewfull": g_viewfull, "pinleak": g_pinleak}
+        "addstream": g_addstream, "unsub": g_unsub, "handles": g_handles, "futseq": g_futseq, "solo": g_solo, "reclaim": g_reclaim, "lapped": g_lapped, "pinned": g_pinned, "norecv_churn": g_norecv_churn, "lastsend": g_lastsend, "lastsibling": g_lastsibling, "lagdrop": g_lagdrop, "viewfull": g_viewfull, "pinleak": g_pinleak}
 
 # ---------------------------------------------------------------- small scenarios for exhaustive schedules
 def smalls_ring():
@@ -688,12 +726,12 @@ def smalls_ring():
 ORACLES = dict(oracle.ORACLES)
 
 PROPS = {
-    "C01": {"gens": [("seq", 30, {}), ("rand", 50, {}), ("pc", 70, {}), ("lastsend", 30, {})], "small": smalls_ring(), "oracles": ["C01", "C07"]},
+    "C01": {"gens": [("seq", 30, {}), ("rand", 50, {}), ("pc", 70, {}), ("lastsend", 30, {}), ("lastsibling", 30, {})], "small": smalls_ring(), "oracles": ["C01", "C07"]},
     "C02": {"gens": [("rand", 50, {}), ("pc", 100, {})], "small": smalls_ring(), "oracles": ["C02", "C01"]},
     "C03": {"gens": [("rand", 40, {}), ("pc", 110, {})], "small": smalls_ring(), "oracles": ["C03"]},
-    "C04": {"gens": [("view", 90, {}), ("pc", 40, {"fl": "B"}), ("pinned", 30, {})], "small": smalls_ring()[:2], "oracles": ["C04", "C01"]},
+    "C04": {"gens": [("view", 90, {}), ("pc", 40, {"fl": "B"}), ("pinned", 30, {}), ("lastsibling", 30, {"fl": "B"})], "small": smalls_ring()[:2], "oracles": ["C04", "C01"]},
     "C05": {"gens": [("teardown", 90, {}), ("viewfull", 30, {}), ("rand", 30, {})], "small": smalls_ring()[:2], "oracles": ["C05"]},
-    "C07": {"gens": [("disc", 100, {}), ("lastsend", 40, {}), ("rand", 20, {})], "small": [], "oracles": ["C07"]},
+    "C07": {"gens": [("disc", 100, {}), ("lastsend", 40, {}), ("lastsibling", 40, {}), ("rand", 20, {})], "small": [], "oracles": ["C07"]},
     "C13": {"gens": [("norecv", 110, {}), ("norecv_churn", 24, {}), ("rand", 20, {})], "small": [], "oracles": ["C13"]},
     "C06": {"gens": [("quiesce", 130, {}), ("pinleak", 20, {})], "small": [], "oracles": ["C06"]},
     "C08": {"gens": [("block", 130, {}), ("lapped", 40, {})], "small": [], "oracles": ["C08"]},
